@@ -132,3 +132,122 @@ pub proof fn lemma_prev_lb(b: Seq<u8>, p: int, pause: bool)
     }
 }
 } // verus!
+verus! {
+// ------------------------------------------------------------------ more L0 vocabulary
+pub proof fn lemma_charpos_unique(b: Seq<u8>, p: int, q1: int, q2: int)
+    requires charpos_ok(b, p, q1), charpos_ok(b, p, q2),
+    ensures q1 == q2,
+{
+    if q1 < q2 { assert(skippable(b, q1)); } else if q2 < q1 { assert(skippable(b, q2)); }
+}
+pub open spec fn char_pos(b: Seq<u8>, p: int) -> Option<int> {
+    if exists|q: int| charpos_ok(b, p, q) { Some(choose|q: int| charpos_ok(b, p, q)) } else { None }
+}
+pub proof fn lemma_char_pos(b: Seq<u8>, p: int)
+    ensures
+        match char_pos(b, p) { Some(q) => charpos_ok(b, p, q), None => forall|q: int| !charpos_ok(b, p, q) },
+        forall|q: int| #[trigger] charpos_ok(b, p, q) ==> char_pos(b, p) == Some(q),
+{
+    assert forall|q: int| #[trigger] charpos_ok(b, p, q) implies char_pos(b, p) == Some(q) by {
+        lemma_charpos_unique(b, p, q, choose|q: int| charpos_ok(b, p, q));
+    }
+}
+
+/// starting on a character boundary, a run of skippable bytes consists of blanks only
+pub proof fn lemma_skippable_run_blank(b: Seq<u8>, p: int, q: int)
+    requires valid_utf8(b), 0 <= p <= q <= b.len(), cb(b, p), forall|k: int| p <= k < q ==> skippable(b, k),
+    ensures all_blank(b, p, q), cb(b, q),
+    decreases q - p,
+{
+    if p < q {
+        assert(skippable(b, p));
+        assert(is_blank(b[p]));
+        lemma_ascii_next_boundary(b, p);
+        lemma_skippable_run_blank(b, p + 1, q);
+    }
+}
+
+/// Rust never allocates more than isize::MAX bytes (std guarantee for str / slices / Vec)
+#[verifier::external_body]
+pub proof fn axiom_str_len_isize(s: &str)
+    ensures s.spec_bytes().len() <= isize::MAX,
+{}
+} // verus!
+verus! {
+// ------------------------------------------------------------------ assumed std contracts (DESIGN 3.3)
+pub uninterp spec fn spec_cmp_min<T>(a: T, b: T) -> T;
+#[verifier::allow(undeclared_external_trait)]
+pub assume_specification<T> [std::cmp::min] (_0: T, _1: T) -> (r: T)
+    where T: std::cmp::Ord + std::marker::Destruct,
+    ensures r == spec_cmp_min(_0, _1),
+;
+#[verifier::external_body]
+pub broadcast proof fn axiom_cmp_min_usize(a: usize, b: usize)
+    ensures #[trigger] spec_cmp_min(a, b) == (if a <= b { a } else { b }),
+{}
+} // verus!
+verus! {
+// ------------------------------------------------------------------ range-list vocabulary (DESIGN 3.4)
+pub open spec fn rvalid(r: Seq<Range<usize>>) -> bool {
+    forall|i: int| 0 <= i < r.len() ==> (#[trigger] r[i]).start <= r[i].end
+}
+/// strictly separated, ascending: no two ranges touch
+pub open spec fn separated(r: Seq<Range<usize>>) -> bool {
+    forall|i: int, j: int| 0 <= i < j < r.len() ==> (#[trigger] r[i]).end < (#[trigger] r[j]).start
+}
+pub open spec fn sorted_by_start(r: Seq<Range<usize>>) -> bool {
+    forall|i: int, j: int| 0 <= i < j < r.len() ==> (#[trigger] r[i]).start <= (#[trigger] r[j]).start
+}
+pub open spec fn covered(r: Seq<Range<usize>>, p: int) -> bool {
+    exists|i: int| 0 <= i < r.len() && (#[trigger] r[i]).start <= p < r[i].end
+}
+pub open spec fn covered_n(r: Seq<Range<usize>>, n: int, p: int) -> bool {
+    exists|i: int| 0 <= i < n && i < r.len() && (#[trigger] r[i]).start <= p < r[i].end
+}
+pub open spec fn has_start_n(r: Seq<Range<usize>>, n: int, x: usize) -> bool {
+    exists|j: int| 0 <= j < n && j < r.len() && (#[trigger] r[j]).start == x
+}
+pub open spec fn has_end_n(r: Seq<Range<usize>>, n: int, x: usize) -> bool {
+    exists|j: int| 0 <= j < n && j < r.len() && (#[trigger] r[j]).end == x
+}
+
+pub proof fn lemma_cov_intro(r: Seq<Range<usize>>, n: int, i: int, p: int)
+    requires 0 <= i < n, i < r.len(), r[i].start <= p < r[i].end,
+    ensures covered_n(r, n, p),
+{}
+pub proof fn lemma_cov_elim(r: Seq<Range<usize>>, n: int, p: int) -> (i: int)
+    requires covered_n(r, n, p),
+    ensures 0 <= i < n, i < r.len(), r[i].start <= p < r[i].end,
+{
+    choose|i: int| 0 <= i < n && i < r.len() && (#[trigger] r[i]).start <= p < r[i].end
+}
+pub proof fn lemma_start_intro(r: Seq<Range<usize>>, n: int, j: int, x: usize)
+    requires 0 <= j < n, j < r.len(), r[j].start == x,
+    ensures has_start_n(r, n, x),
+{}
+pub proof fn lemma_start_elim(r: Seq<Range<usize>>, n: int, x: usize) -> (j: int)
+    requires has_start_n(r, n, x),
+    ensures 0 <= j < n, j < r.len(), r[j].start == x,
+{
+    choose|j: int| 0 <= j < n && j < r.len() && (#[trigger] r[j]).start == x
+}
+pub proof fn lemma_end_intro(r: Seq<Range<usize>>, n: int, j: int, x: usize)
+    requires 0 <= j < n, j < r.len(), r[j].end == x,
+    ensures has_end_n(r, n, x),
+{}
+pub proof fn lemma_end_elim(r: Seq<Range<usize>>, n: int, x: usize) -> (j: int)
+    requires has_end_n(r, n, x),
+    ensures 0 <= j < n, j < r.len(), r[j].end == x,
+{
+    choose|j: int| 0 <= j < n && j < r.len() && (#[trigger] r[j]).end == x
+}
+
+/// every start (end) of `out` is the start (end) of some range of `inp`
+pub open spec fn ends_from(inp: Seq<Range<usize>>, out: Seq<Range<usize>>) -> bool {
+    forall|i: int| 0 <= i < out.len() ==>
+        has_start_n(inp, inp.len() as int, (#[trigger] out[i]).start) && has_end_n(inp, inp.len() as int, out[i].end)
+}
+
+pub assume_specification<Idx: Clone> [<Range<Idx> as Clone>::clone] (r: &Range<Idx>) -> (c: Range<Idx>)
+    ensures c == *r;
+} // verus!
